@@ -47,7 +47,12 @@ pub fn sections(ctx: &Ctx) -> Vec<(&'static str, u64)> {
         Tier::Quick => 600,
         Tier::Thorough => 6000,
     } * ctx.scale;
-    let mut v = vec![("baseline-w1", w1), ("baseline-w5", w5), ("baseline-w2", w2)];
+    let mut v = vec![
+        ("baseline-w1", w1),
+        ("baseline-w5", w5),
+        ("baseline-w2", w2),
+        ("baseline-tails", crate::w2::TAILS.len() as u64),
+    ];
     for s in FAULT_SECTIONS {
         v.push((s, entries * chunks(ctx.tier)));
     }
@@ -541,6 +546,21 @@ pub fn cases(ctx: &Ctx, section: &str, i: u64) -> Vec<Case> {
             // constant evaluation), fault free
             let (label, fs, task) = crate::w2::scenario(&mut rng.sub("w2"), i);
             vec![total_case(&label, fs, task, key(&mut rng), STACK_MAIN)]
+        }
+        "baseline-tails" => {
+            // every program tail alone, under every target, with and without a requested pipeline
+            let mut out = Vec::new();
+            for t in 0..3 {
+                let (label, fs, task) = crate::w2::tail_scenario(i as usize, t);
+                out.push(total_case(&label, fs.clone(), task.clone(), key(&mut rng), STACK_MAIN));
+                let mut named = task.clone();
+                named.pipeline = Some("TailP".into());
+                out.push(total_case(&format!("{label}+pipeline=TailP"), fs.clone(), named, key(&mut rng), STACK_MAIN));
+                let mut np = task;
+                np.no_pipeline = true;
+                out.push(total_case(&format!("{label}+no_pipeline"), fs, np, key(&mut rng), STACK_MAIN));
+            }
+            out
         }
         "baseline-w5" => {
             let lo = (i * SNIPPET_BATCH) as usize;
